@@ -302,6 +302,25 @@ pub fn gen_case<R: Rng>(rng: &mut R, svg: bool) -> Case {
     };
     let optimise = if rng.gen_bool(0.05) { rng.gen_range(20, 200) } else { 0 };
     let mut p = params;
+    // values as data delivers them: f32-representable, dyadic, short decimals, integers, 2^n
+    let mut snap = |v: &mut f64, lo: f64, hi: f64| {
+        if rng.gen_range(0, 3) == 0 {
+            let s = snap_float(rng, *v);
+            if s >= lo && s <= hi {
+                *v = s;
+            }
+        }
+    };
+    snap(&mut p.len, 0.01, 1e9);
+    snap(&mut p.ratio, 0.1, 1.);
+    snap(&mut p.angle, PI / 6., PI / 2.);
+    snap(&mut p.x, -0.5, 0.5);
+    snap(&mut p.y, -0.5, 0.5);
+    snap(&mut p.phi, 0., 2. * PI);
+    if rng.gen_range(0, 40) == 0 {
+        // very large cells, powers of two among them
+        p.len = if rng.gen_bool(0.5) { 2f64.powi(rng.gen_range(10, 40)) } else { 10f64.powf(rng.gen_range(3., 9.)) };
+    }
     if optimise > 0 {
         let copies = groups::group("p2mg").unwrap().ops.len() as f64;
         p.len = 6. * copies;
